@@ -22,7 +22,7 @@ DESIGN_REF = 'DESIGN.md section 3, C08'
 RULE = ('Hypothesis generates C07-style abstract packages (per-file / cube, distance-independent / -dependent, permuted '
         'parameter table, either storage order), 2..4 filters inside the SED range, an extinction law, a planted model m, '
         'A_V0 inside a generated A_V range, a planted scale (or a grid distance index), per-band flags 1 or 4 and relative '
-        'errors in [1e-3, 0.5]. The reference decides non-degeneracy: every other model (and every other grid distance of '
+        'errors in [1e-3, 0.5]; in half of the cases the rows of parameters.fits are re-ordered after the convolution. The reference decides non-degeneracy: every other model (and every other grid distance of '
         'm) must have reference chi^2 > 1e-3 (+ float32 slack), else the case is counted as degenerate and skipped. '
         'Non-trivial = non-degenerate case with >= 2 models; distinct = distinct canonical JSON.')
 ASSUMPTIONS = [
@@ -58,6 +58,8 @@ def cases(draw):
     c['flags'] = [draw(st.sampled_from([1, 4])) for _ in range(nf)]
     c['rel'] = [draw(gen.logfloat(1e-3, 0.5)) for _ in range(nf)]
     c['selector'] = draw(st.sampled_from([['A', 0], ['N', 1], ['N', 3], ['F', 6.], ['C', 1e31]]))
+    # the parameter file is looked up by model NAME: its rows may be re-ordered after the convolved fluxes were built
+    c['reorder_after'] = list(draw(st.permutations(list(range(len(pkg['names'])))))) if draw(st.booleans()) else None
     return c
 
 
@@ -163,6 +165,9 @@ def run_case(case, ctx):
         convpkg.emit(pkg, mdir, fmt)
         with must_succeed('convolve_model_dir'), quiet():
             convolve_model_dir(mdir, [convpkg.filter_object(f) for f in filters])
+        if case.get('reorder_after') is not None:
+            pkgio.write_parameters(mdir, names, pkg['params'], order=case['reorder_after'])
+            labels.add('parameter_rows_reordered_after_convolution')
         data = os.path.join(d, 'data.txt')
         pkgio.write_data_file(data, [pkgio.source_line(src['name'], src['x'], src['y'], src['flags'], src['flux'], src['err'])])
         out = os.path.join(d, 'out.fitinfo')
